@@ -118,6 +118,16 @@ def construct(kind, fn):
 def _alt_form(o):
     """the same exact object through another public constructor form (None: no alternative for this type)."""
     k = o[0]
+    if FORM == 'D':
+        # Line(Vector, Vector), HalfLine(P, P), Segment(P, V), Plane(Point, Vector, Vector)
+        if k == 'Line':
+            return Line(V(o[1]), V(o[2]))
+        if k == 'Plane':
+            n = o[2]
+            e = next(e for e in ((1, 0, 0), (0, 1, 0), (0, 0, 1)) if not X.is_zero(X.cross(n, e)))
+            u = X.cross(n, e)
+            w = X.cross(n, u)
+            return Plane(P(o[1]), V(u), V(X.add(w, u)))
     if k == 'Line':
         if FORM == 'B':
             return Line(P(o[1]), P(X.add(o[1], o[2])))
